@@ -1,6 +1,6 @@
 SPECIFICATION Spec
 CONSTANTS
- Fams = {"ip"}
+ Fams = {"ip", "big"}
  P <- PQuick
 INVARIANTS Theorems Emit
 CHECK_DEADLOCK FALSE
